@@ -2079,9 +2079,11 @@ impl SubRule {
         states: &[Item], 
     ) -> Result<bool, RuleRuntimeError> {
         let err_pos = states[*state_index].position;
+        // a syllable matched through a variable or inside a set advances the state itself; one input element is one state
+        let this_state = *state_index;
         match &states[*state_index].kind {
             ParseElement::Variable(vt, m) => if self.input_match_var(captures, state_index, vt, m, word, seg_pos, err_pos)? {
-                *state_index += 1;
+                *state_index = this_state + 1;
                 Ok(true)
             } else { Ok(false) },
             ParseElement::Ipa(s, m) => if self.input_match_ipa(captures, s, m, word, seg_pos, err_pos)? {
@@ -2095,7 +2097,7 @@ impl SubRule {
                 Ok(true) 
             } else { Ok(false) },
             ParseElement::Set(s) => if self.input_match_set(captures, state_index, s, word, seg_pos)? {
-                *state_index += 1;
+                *state_index = this_state + 1;
                 Ok(true)
             } else { Ok(false) },
             ParseElement::SyllBound => if self.input_match_syll_bound(captures, *seg_pos) {
